@@ -24,6 +24,7 @@ from __future__ import annotations
 import gc
 import json
 import os
+import time
 
 from vh import aio
 from vh.sut import persist_wf as W
@@ -537,7 +538,11 @@ def run(ctx):
     ctx.rule = ("TLC enumerates workflow shapes (every step class x options x workflow class; ordered pairs of step classes chained / "
                 "side by side; sets of <= 2 token types) and all Save/Load/MutateLoaded histories over aliasing profiles; every selected "
                 "shape is instantiated with the scalar catalogue, saved, loaded 3 ways, compared, identity-scanned, mutated and re-read; "
-                "non-trivial = the shape has at least one step option or token beyond the bare defaults")
+                "non-trivial = the shape has at least one step option or token beyond the bare defaults; "
+                "concurrent saves: every entity graph emitted by PersistenceSave (token DAGs with a shared token / two callers, workflows "
+                "sharing targets, deployments, filters, a workflow saved twice) is saved by the real save() under a gated database for "
+                "every completion order of the database calls and arrival point of the second caller (capped per shape), each run is "
+                "explained and judged by Trace_PersistenceSave and loaded back")
     cex = _model(ctx)
     shapes, relines = _generate(ctx)
     saveshapes = _save_model(ctx)
@@ -566,6 +571,7 @@ def run(ctx):
 
     holder = {}
     safegc = SafeGC()
+    phases = ctx.extra.setdefault("driver_phases_wall_cpu_s", {})
 
     async def main():
         from vh.sut import context as sctx
@@ -573,6 +579,7 @@ def run(ctx):
         ck = Checker(ctx, sf)
         try:
             # Part 4: concurrent saves of shared entities, every schedule of every shape (capped per shape)
+            t0, c0 = time.time(), time.process_time()
             cs = holder["cs"] = ConcurrentSaver(ctx, sf)
             cs.gc = safegc
             await cs.setup()
@@ -587,6 +594,8 @@ def run(ctx):
                     ctx.count("save_shapes:%s" % fam)
             finally:
                 cs.teardown()
+            phases["concurrent_saves"] = [round(time.time() - t0, 1), round(time.process_time() - c0, 1)]
+            t0, c0 = time.time(), time.process_time()
             for vi, variant in enumerate(variants):
                 rs = Resaver(ctx, sf, variant)
                 # the histories are dealt out to the variants in turn (quick: <= 2 modifications, 2 variants; thorough: <= 3, 3 variants)
@@ -597,6 +606,8 @@ def run(ctx):
                     safegc.tick()
                     ctx.count("resave_histories:%s" % variant)
                 ctx.impl_trace(len(mine))
+            phases["resave_histories"] = [round(time.time() - t0, 1), round(time.process_time() - c0, 1)]
+            t0, c0 = time.time(), time.process_time()
             for item in sel:
                 sh = item["shape"]
                 trivial = item["family"] == "one" and set(sh["steps"][0]) == {"kind"}
@@ -605,6 +616,7 @@ def run(ctx):
                 safegc.tick()
                 ctx.count("shapes_checked:%s" % item["family"])
             ctx.impl_trace(len(sel))
+            phases["shapes"] = [round(time.time() - t0, 1), round(time.process_time() - c0, 1)]
         finally:
             await sctx.close(sf)
 
@@ -622,6 +634,9 @@ def run(ctx):
         "mappings are compared without their insertion order (wiring dictionaries are rebuilt in database order)",
         "tokens are saved on the first port of the shape and loaded through the same three loading contexts as the workflow",
         "CWL-specific classes are exercised under CWLWorkflow only",
+        "concurrent saves: the driver completes database calls and starts the second caller only when every task is blocked; "
+        "database failures during a save are not modelled; dependency rows are written for real but their completion order is not explored",
+        "the cyclic garbage collector runs between two cases only (cachebox deadlocks when a collection starts inside a cached getter)",
     ]
 
 
